@@ -356,3 +356,14 @@ func (s *Sel) InIndex(n *Node) bool { return s.Arrived[n] || s.HeaderKnown[n] ||
 
 // ActivePath returns genesis..Tip.
 func (s *Sel) ActivePath() []*Node { return s.Tip.Path() }
+
+// ChainValidHeader reports whether the headers of n and all its ancestors
+// are valid (block-level defects such as a bad merkle root do not count).
+func (n *Node) ChainValidHeader() bool {
+	for it := n; it != nil; it = it.Parent {
+		if it.HeaderInvalid() {
+			return false
+		}
+	}
+	return true
+}
